@@ -11,9 +11,10 @@ from .c03 import same_outcome
 
 # first evaluations (history): valid, erroneous, aborted by a raising callback
 F1 = ['va+1', 'SUM(va,{1,2})*vb', '1/0', 'NOSUCH(1)', 'unknownvar', 'SUM(', '"abc', 'BOOM(1)', 'A1+1', 'IFERROR(1/0,va)',
-      'CONCATENATE(va,",",vb)', '#N/A', 'va&vb', 'SUM(1/0)', 'LARGE({3,1,2},va)', 'A1:B2', 'ARABIC("x")', 'va<vb']
+      'CONCATENATE(va,",",vb)', '#N/A', 'va&vb', 'SUM(1/0)', 'LARGE({3,1,2},va)', 'A1:B2', 'ARABIC("x")', 'va<vb',
+      'SUM(C3:A1)', 'INDEX(B3:C1,1,1)', 'SUM(1,2)', 'MAX(va,vb)']
 # second evaluations, compared with a fresh parser
-F2 = ['va*2-vb', 'IF(va>vb,"gt","le")', 'SUM(va,vb,3)', 'vb/0', 'NOSUCH(va)', 'A1', 'MAX({1,2},va)', 'va&"z"', 'B(', 'ISERROR(1/0)',
+F2 = ['va*2-vb', 'IF(va>vb,"gt","le")', 'SUM(va,vb,3)', 'vb/0', 'NOSUCH(va)', 'A1', 'C3', 'C1+B3', 'MAX({1,2},va)', 'va&"z"', 'B(', 'ISERROR(1/0)',
       'LEN("abc")+va', 'AVERAGE(va,vb)']
 
 
@@ -24,8 +25,9 @@ def bind(env, P, inp, raising=True):
         def boom(*a):
             raise ValueError('host callback failure')
         P.set_function('BOOM', boom)
-    P.on('callCellValue', lambda cell, s: s(inp['a']))
-    P.on('callRangeValue', lambda a, b, s: s([[inp['a'], inp['b']], [1, 2]]))
+    # what a cell or range evaluates to depends on the coordinates delivered with the event
+    P.on('callCellValue', lambda cell, s: s(inp['a'] + 100 * cell.row.index + cell.col.index))
+    P.on('callRangeValue', lambda a, b, s: s([[inp['a'], inp['b']], [100 * a.row.index + a.col.index, 100 * b.row.index + b.col.index]]))
 
 
 @register
